@@ -138,8 +138,17 @@ class FFTStub:
     def __init__(self):
         self.fn = {}
 
-    def rfft(self, x, axis=0):
-        x = list(np.asarray(x, dtype=object).ravel())
+    def rfft(self, x, n=None, axis=-1, norm=None):
+        xa = np.asarray(x, dtype=object)
+        if xa.ndim > 1:
+            # batched transform along `axis` (numpy semantics): one independent 1-d transform per series
+            moved = np.moveaxis(xa, axis, -1)
+            rows = [self.rfft(r) for r in moved.reshape(-1, moved.shape[-1])]
+            out = np.empty((len(rows), len(rows[0])), dtype=object)
+            for i, r in enumerate(rows):
+                out[i, :] = r
+            return np.moveaxis(out.reshape(moved.shape[:-1] + (len(rows[0]),)), -1, axis)
+        x = list(xa.ravel())
         n = len(x)
         nf = n // 2 + 1
         f = self.fn.setdefault(n, AckFun(f"rfft{n}", nout=2 * nf))
